@@ -434,3 +434,107 @@ def copy_form(H):
         same = all(n in bound and (bound[n] is v or _same(H, bound[n], v) is True or (isinstance(v, (tuple, str)) and bound[n] == v)) for n, v in want.items())
         H.prove(same and set(bound) - {"inplace"} <= set(want) | set(), "copy_form.other_arguments_forwarded_unchanged", detail=f"{bound} vs {want}")
     H.prove(all(t[1] is not svg or t[0] == "_clone" for t in trace), "copy_form.receiver_left_alone", detail=str(names))
+
+
+# ------------------------------------------------------------------------------------------------ per-shape methods: the bookkeeping around the shape-level operation
+_SHAPE_MAPS = ("absolute", "shapes_to_paths", "expand_shorthand", "evenodd_to_nonzero_winding", "round_floats", "remove_empty_subpaths", "normalize_opacity")
+
+
+@obligation(("C15", "C09", "C01"), "state.shape_map", split=("method", _SHAPE_MAPS), functions=["svg.SVG." + m for m in _SHAPE_MAPS] + ["svg.SVG._elements", "svg.SVG._set_element", "svg.SVG._update_etree", "svg.SVG.shapes"])
+def shape_map(H):
+    """The document-level methods that map an operation over the shapes, in place, on <svg><g><rect/><path evenodd/></g>
+    <circle/></svg>: every shape the method applies to is handed to the shape-level operation exactly once (with the
+    caller's arguments), ITS result is what the next serialisation writes at ITS place, shapes the method does not apply to
+    are written back as they were, and the receiver is returned.  The shape-level operations are recorders here; what they
+    compute is under contract in C09 / C01 / C05 / C13."""
+    import dataclasses
+
+    from picosvg.svg_types import SVGCircle, SVGPath, SVGRect, SVGShape
+
+    from .fake_tree import local
+
+    name = H.case("method", _SHAPE_MAPS)
+    if H.mode == "concrete":
+        svg = SVG.fromstring('<svg xmlns="http://www.w3.org/2000/svg" viewBox="0 0 9 9"><g><rect id="s0" width="2.26" height="2" fill-opacity="0.5"/><path id="s1" d="M1,1 h2.26 v2 z M5,5" fill-rule="evenodd"/></g><circle id="s2" r="1.26"/></svg>')
+        args = (1,) if name == "round_floats" else ()
+        out = getattr(svg, name)(*args, inplace=True)
+        ids = [e.attrib.get("id") for e in out.toetree().iter() if e.attrib.get("id")]
+        H.prove(out is svg and ids == ["s0", "s1", "s2"], "shape_map.every_shape_written_back_at_its_place", detail=str(ids))
+        return
+    fake_tree.install(H)
+    fake_tree.install_xpath(H, SVG)
+    el = lambda tag, attrib=None, children=(): FakeElement(SVGNS + tag, attrib, children)
+    rect = el("rect", {"id": "s0", "width": "2", "height": "3"})
+    path = el("path", {"id": "s1", "d": "M1,1 L2,2 L3,1 Z", "fill-rule": "evenodd"})
+    circle = el("circle", {"id": "s2", "r": "4"})
+    group = el("g", {"opacity": "0.5"}, [rect, path])
+    root = el("svg", {"viewBox": "0 0 9 9"}, [group, circle])
+    svg = SVG(root)
+    ops = []
+    nd = H.int("ndigits")
+
+    def tag_of(shape):
+        return shape.id
+
+    def returning(op):
+        def rec(I, self_, *a, **k):
+            ops.append((op, tag_of(self_), a, k, type(self_).__name__))
+            mark = getattr(self_, "d", "") if isinstance(self_, SVGPath) and getattr(self_, "d", "").startswith("M9") else "M9"
+            if k.get("inplace") and isinstance(self_, SVGPath):
+                self_.d = f"{mark} {op}"  # the real operation changes the receiver and returns it
+                return self_
+            return SVGPath(id=self_.id, d=f"{mark} {op}", fill_rule=self_.fill_rule)
+        return rec
+
+    def in_place(op):
+        def rec(I, self_, *a, **k):
+            ops.append((op, tag_of(self_), a, k, type(self_).__name__))
+            if isinstance(self_, SVGPath):
+                self_.d = f"M9 {op}"
+            else:
+                self_.clip_rule = "evenodd"  # a visible mark on a non-path shape
+            return self_
+        return rec
+
+    for cls in (SVGShape, SVGPath, SVGRect, SVGCircle):
+        for op in ("absolute", "as_path", "explicit_lines", "expand_shorthand", "remove_overlaps", "remove_empty_subpaths"):
+            f = cls.__dict__.get(op)
+            if f is not None:
+                H.override(f, returning(op))
+        for op in ("round_floats", "normalize_opacity"):
+            f = cls.__dict__.get(op)
+            if f is not None:
+                H.override(f, in_place(op))
+    args = (nd,) if name == "round_floats" else ()
+    res, e = H.catch(getattr(SVG, name), svg, *args, inplace=True)
+    H.prove(e is None and res is svg, "shape_map.returns_the_receiver", detail=repr(e))
+    if e is not None:
+        return
+    chain = {"absolute": ["absolute"], "shapes_to_paths": ["as_path"], "expand_shorthand": ["explicit_lines", "expand_shorthand"], "evenodd_to_nonzero_winding": ["as_path", "remove_overlaps"],
+             "round_floats": ["round_floats"], "remove_empty_subpaths": ["remove_empty_subpaths"], "normalize_opacity": ["normalize_opacity"]}[name]
+    applies = {"expand_shorthand": ("s1",), "evenodd_to_nonzero_winding": ("s1",), "remove_empty_subpaths": ("s1",)}.get(name, ("s0", "s1", "s2"))
+    for t in ("s0", "s1", "s2"):
+        got = [o[0] for o in ops if o[1] == t]
+        H.prove(got == (chain if t in applies else []), "shape_map.operation_applied_exactly_once_to_the_shapes_it_concerns", detail=f"{t}: {got}")
+    if name == "round_floats":
+        H.prove(all((o[2][0] if o[2] else o[3].get("ndigits")) is nd and o[3].get("inplace") is True for o in ops), "shape_map.callers_arguments_reach_the_operation")
+    if name in ("expand_shorthand", "remove_empty_subpaths", "normalize_opacity", "evenodd_to_nonzero_winding"):
+        last = [o for o in ops if o[0] == chain[-1]]
+        H.prove(all(o[3].get("inplace") is True for o in last), "shape_map.last_operation_in_place_on_the_fresh_copy")
+    before_ops = len(ops)
+    H.call(SVG._update_etree, svg)
+    H.prove(len(ops) == before_ops, "shape_map.serialising_does_not_run_the_operation_again")
+    flat = [k for k in root.iterdescendants() if k.attrib.get("id") in ("s0", "s1", "s2")]
+    H.prove([k.attrib.get("id") for k in flat] == ["s0", "s1", "s2"] and [k.getparent() is group for k in flat] == [True, True, False] and list(root) [0] is group, "shape_map.every_shape_written_back_at_its_place",
+            detail=str([(local(k), dict(k.attrib)) for k in flat]))
+    for k in flat:
+        t = k.attrib["id"]
+        if t in applies:
+            if name in ("round_floats", "normalize_opacity"):
+                marked = k.attrib.get("d", "") == f"M9 {name}" if t == "s1" else k.attrib.get("clip-rule") == "evenodd"
+            else:
+                marked = local(k) == "path" and k.attrib.get("d", "") == "M9 " + " ".join(chain)
+            H.prove(marked, "shape_map.the_result_of_the_operation_is_what_gets_written", detail=str((local(k), dict(k.attrib))))
+        else:
+            same = {"s0": local(k) == "rect" and k.attrib.get("width") == "2", "s1": k.attrib.get("d") == "M1,1 L2,2 L3,1 Z", "s2": local(k) == "circle" and k.attrib.get("r") == "4"}[t]
+            H.prove(same, "shape_map.untouched_shapes_written_back_as_they_were", detail=str((local(k), dict(k.attrib))))
